@@ -109,6 +109,8 @@ Inductive op :=
   | OSend (n : Z)          (* Channel.send(n bytes) *)
   | OSendErr (n : Z)       (* Channel.send_stderr(n bytes) *)
   | ORecv (n : Z)          (* Channel.recv(n) *)
+  | OStdinClose            (* Channel.makefile_stdin().close(): flush (nothing buffered), then
+                              shutdown_write() -- the alternative entry point to shutdown(1) *)
   (* peer messages, dispatched by the transport's run loop *)
   | OPeerEof | OPeerClose | OPeerFail | OPeerWa (n : Z) | OPeerData (n : Z)
   (* transport shutdown: chan._unlink() *)
@@ -199,7 +201,7 @@ Definition exec (o : op) (s : st) : out :=
       else if how =? 0 then mkO (set_eof_recv s) [] [] (r_ok 0)
       else if how =? 2 then mkO (set_eof_recv s) [] [KShutW] []
       else mkO s [] [] (r_ok 0)
-  | KShutW => let '(s', ms) := send_eof s in mkO s' ms [] (r_ok 0)
+  | KShutW | OStdinClose => let '(s', ms) := send_eof s in mkO s' ms [] (r_ok 0)
   | OSend n => send_cs false n s
   | OSendErr n => send_cs true n s
   | KBlocked ext n _ => wake_cs ext n s
@@ -293,7 +295,7 @@ Definition at_op (c : cfg) (tid : nat) (o : op) : Prop :=
 
 Definition is_user_op (o : op) : bool :=
   match o with
-  | OClose | OShutdown _ | OSend _ | OSendErr _ | ORecv _ | KShutW | KRecv _ => true
+  | OClose | OShutdown _ | OSend _ | OSendErr _ | ORecv _ | OStdinClose | KShutW | KRecv _ => true
   | _ => false
   end.
 Definition is_send_op (o : op) : bool :=
